@@ -45,15 +45,18 @@ vars == <<c>>
 
 \* ------------------------------------------------------------------ names and clause tokens
 HostN == "h"
-SessN == <<"0", "1", "2">>
+SessN == <<"0", "1", "2", "3">>                    \* "3" only exists in routing histories with four sessions
 UserN == <<"a", "b">>
 KidNames(d) == IF d = 0 THEN <<HostN>> ELSE IF d = 1 THEN SessN ELSE UserN     \* possible names of the children of a node at depth d, in creation order
-AllNames == {"h", "0", "1", "2", "a", "b"}
+AllNames == {"h", "0", "1", "2", "3", "a", "b"}
 
 \* the strings a clause matches, among the names above
 MatchSet(t) == CASE t = "*"     -> AllNames
                  [] t = "h"     -> {"h"}
                  [] t = "0"     -> {"0"}
+                 [] t = "1"     -> {"1"}
+                 [] t = "2"     -> {"2"}
+                 [] t = "3"     -> {"3"}
                  [] t = "1,0"   -> {"0", "1"}
                  [] t = "<0-1>" -> {"0", "1"}
                  [] t = "~0"    -> AllNames \ {"0"}
@@ -64,12 +67,18 @@ MatchSet(t) == CASE t = "*"     -> AllNames
                  [] t = "(a|c)" -> {"a"}
                  [] t = "b,a"   -> {"a", "b"}
                  [] t = "~a"    -> AllNames \ {"a"}
-Tokens == {"*", "h", "0", "1,0", "<0-1>", "~0", "a", "b", "\\a", "?", "(a|c)", "b,a", "~a"}
+Tokens == {"*", "h", "0", "1", "2", "3", "1,0", "<0-1>", "~0", "a", "b", "\\a", "?", "(a|c)", "b,a", "~a"}
 ClMatch(t, n) == n \in MatchSet(t)
 \* "U" IsPatternUnique, "L" IsPatternListOfUniqueValues, "W" anything else ("*" is stored as a NULL matcher)
-Kind(t) == IF t \in {"h", "0", "a", "b", "\\a"} THEN "U" ELSE IF t \in {"1,0", "b,a"} THEN "L" ELSE "W"
+Kind(t) == IF t \in {"h", "0", "1", "2", "3", "a", "b", "\\a"} THEN "U" ELSE IF t \in {"1,0", "b,a"} THEN "L" ELSE "W"
 \* the keys of the hash lookups: the items of the list, unescaped, in order
 Lits(t) == CASE t = "1,0" -> <<"1", "0">> [] t = "b,a" -> <<"b", "a">> [] t = "\\a" -> <<"a">> [] OTHER -> <<t>>
+
+\* what the real StringMatcher answered about the tokens (rows [t, lvl, k, m] written by the harness) agrees with the table above, on the names of n sessions
+RowOK(r, n) == /\ r.t \in Tokens
+               /\ r.k = Kind(r.t)
+               /\ {r.m[j] : j \in 1..Len(r.m)} = MatchSet(r.t) \cap (IF r.lvl = 1 THEN {SessN[j] : j \in 1..n} ELSE {KidNames(r.lvl)[j] : j \in 1..Len(KidNames(r.lvl))})
+TableAgrees(rows, n) == \A k \in 1..Len(rows) : RowOK(rows[k], n)
 
 \* ------------------------------------------------------------------ the entry table (PathMatcher::_entries)
 Norm(p) == IF p.abs THEN p.cl ELSE <<"*", "*">> \o p.cl                        \* AdjustStringPrefix(DEFAULT_PATH_PREFIX)
@@ -202,7 +211,7 @@ KidSet(k) == CASE k = 2 -> {"a"} [] k = 3 -> {"b"} [] k = 4 -> {"a", "b"} [] OTH
 Sub(s, x, k) == IF k = 0 THEN {} ELSE {<<HostN, s, x>>} \cup {<<HostN, s, x, y>> : y \in KidSet(k)}
 NodesOf(codes) == {<< >>, <<HostN>>} \cup {<<HostN, SessN[i]>> : i \in 1..3}
                   \cup UNION {Sub(SessN[i], "a", codes[i] \div 5) \cup Sub(SessN[i], "b", codes[i] % 5) : i \in 1..3}
-SessIdx(s) == CASE s = "0" -> 0 [] s = "1" -> 1 [] s = "2" -> 2
+SessIdx(s) == CASE s = "0" -> 0 [] s = "1" -> 1 [] s = "2" -> 2 [] s = "3" -> 3
 NumB(n) == Cardinality({i \in 3..Len(n) : n[i] = "b"})
 WhatOf(n, dv) == IF Len(n) <= 2 THEN 0 ELSE 1 + ((NumB(n) + SessIdx(n[2]) + dv) % 2)      \* the what-code the harness gives the node
 TreeOf(codes, dv) == [n \in NodesOf(codes) |-> WhatOf(n, dv)]
